@@ -572,6 +572,8 @@ def _robust_gp_fit_(
                 X = X[~idx_drop_out]
                 Y = Y[~idx_drop_out]
                 # Remove also user specified noise
+                if s2 is not None and not np.isscalar(s2):
+                    s2 = s2[~idx_drop_out]
                 if tmp_gp.s2 is not None and tmp_gp.s2.size > 0:
                     tmp_gp.s2 = tmp_gp.s2[~idx_drop_out]
 
